@@ -349,7 +349,15 @@ func init() {
 			if c.Idx%75 == 7 {
 				return runC01SamePrinting(c, r)
 			}
+			if c.Idx%97 == 41 {
+				return runC01TwinSubtypeOutputs(c, r)
+			}
 			s, fam := pickGeneralMix(r)
+			if c.Idx%13 == 6 {
+				// free-form subtypes (key=value, words, punctuation, "%2C")
+				s = oddSubs(s)
+				res.obs("cases_with_free_form_subtypes", 1)
+			}
 			res.Key = s.Key()
 			if usesExotic(s) {
 				res.obs("cases_over_exotic_types", 1)
@@ -467,6 +475,9 @@ func init() {
 			}
 			if c.Idx%53 == 7 {
 				return runC02GeneratorChain(c, r)
+			}
+			if c.Idx%59 == 11 {
+				return runC02WideConverter(c, r)
 			}
 			if c.Idx%12 == 8 {
 				runDefaultsHistory(c, r, &res, nil)
@@ -763,5 +774,102 @@ func runC02GeneratorChain(c *CaseCtx, r *rand.Rand) (res CaseResult) {
 		res.violate("C02", "second-level-generated-converter-unstable", fmt.Sprintf("of %d identical calls %d were refused and %d executed the target: whether or not a generator is shown the output of a generated converter, one of the two outcomes is wrong", reps, refused, served), map[string]interface{}{"scenario": s.String()})
 	}
 	res.Sample = map[string]interface{}{"scenario": s.String(), "family": "generator-chain", "refused": refused, "served": served}
+	return res
+}
+
+// runC02WideConverter: a converter with MANY inputs (17-20 named values), one
+// of which nobody supplies while the others are there. The target needs its
+// output: the call is refused, and the wide converter is not executed with a
+// missing argument -- whatever the position of the missing input.
+func runC02WideConverter(c *CaseCtx, r *rand.Rand) (res CaseResult) {
+	n := 17 + r.Intn(4)
+	missing := r.Intn(n)
+	if c.Idx%2 == 0 {
+		missing = n - 1 - r.Intn(3) // one of the last fields
+	}
+	var s Scenario
+	wide := FuncSpec{InForm: FormStruct, OutForm: FormPos, Out: []Label{{Type: 5}}}
+	if r.Intn(3) == 0 {
+		wide.InForm, wide.OutForm, wide.HasErr = FormBuilt, FormBuilt, true
+	}
+	for i := 0; i < n; i++ {
+		l := Label{Name: fmt.Sprintf("w%d", i), Type: i % 5}
+		wide.In = append(wide.In, l)
+		if i != missing {
+			s.Inputs = append(s.Inputs, l)
+		}
+	}
+	s.Convs = []FuncSpec{wide}
+	s.Target = FuncSpec{In: []Label{{Type: 5}}, InForm: FormPos, OutForm: FormPos}
+	res.Key = fmt.Sprintf("wide-converter n=%d missing=%d form=%d", n, missing, wide.InForm)
+	res.NonTrivial = true
+	res.obs("family.wide-converter", 1)
+	res.obs("underivable_cases", 1)
+	outs, _ := runScenarioX(c, s, r, tierReps(c.Tier, 2, 4), &res, nil, nil)
+	for _, o := range outs {
+		if o.Class == ClsUnsat {
+			res.obs("refused_with_unsatisfied_error", 1)
+		}
+	}
+	res.Sample = map[string]interface{}{"family": "wide-converter", "inputs": n, "missing": missing}
+	return res
+}
+
+// runC01TwinSubtypeOutputs: a converter whose struct result has TWO type-only
+// fields of one type that differ in their subtype (the pinned library only
+// publishes the last of them, which is its documented limit and no business
+// of C01). Whatever the call does -- refuse, or serve the consumer -- nobody
+// may receive the value of the OTHER subtype.
+func runC01TwinSubtypeOutputs(c *CaseCtx, r *rand.Rand) (res CaseResult) {
+	tIn, tOut := r.Intn(3), 3+r.Intn(3)
+	wantLeft := r.Intn(2) == 0
+	var s Scenario
+	s.Inputs = []Label{{Type: tIn}}
+	conv := FuncSpec{In: []Label{{Type: tIn}}, Out: []Label{{Type: tOut, Sub: "left"}, {Type: tOut, Sub: "right"}}, InForm: FormPos, OutForm: FormStruct}
+	if r.Intn(2) == 0 {
+		conv.OutForm = FormPtr
+	}
+	s.Convs = []FuncSpec{conv}
+	want := "right"
+	if wantLeft {
+		want = "left"
+	}
+	p := Label{Type: tOut, Sub: want}
+	if r.Intn(2) == 0 {
+		p.Name = "n"
+	}
+	s.Target = FuncSpec{In: []Label{p}, InForm: FormStruct, OutForm: FormPos}
+	res.Key = "twin-subtype-outputs " + s.Key()
+	res.NonTrivial = true
+	res.obs("family.twin-subtype-outputs", 1)
+	in, err := Instantiate(s, r)
+	if err != nil {
+		res.Skip = "instantiate"
+		return res
+	}
+	for k := 0; k < tierReps(c.Tier, 4, 10); k++ {
+		o := DoCall(in.W, in.Target.Func, in.AllArgs(k, r))
+		res.Evals++
+		det := map[string]interface{}{"scenario": s.String(), "class": o.Class, "err": firstLine(errStr(o.Err)), "events": eventsStr(o.Events)}
+		if o.Class == ClsPanic {
+			res.violate("C06", "panic/"+crashKey(o.Panic), "Call panicked: "+o.Panic, det)
+			continue
+		}
+		for _, e := range o.Events {
+			if e.Func != -1 || len(e.Args) == 0 {
+				continue
+			}
+			org := in.W.Origin(e.Args[0].ID)
+			if org == nil || org.Kind != OConv || org.Label.Sub != want {
+				lbl := "a value nobody produced"
+				if org != nil {
+					lbl = org.Label.String()
+				}
+				res.violate("C01", "binding/mislabelled", fmt.Sprintf("the parameter %v received %s", p, lbl), det)
+			}
+			res.obs("arguments_checked", 1)
+		}
+	}
+	res.Sample = map[string]interface{}{"scenario": s.String(), "family": "twin-subtype-outputs"}
 	return res
 }
